@@ -149,14 +149,24 @@ pub fn gen(rng: &mut Rng, tier: Tier, out: &mut Vec<String>) {
         let mut l = format!("vec3 {}", h64(s));
         for _ in 0..3 {
             let a = rng.f32_in(-10.0, 10.0);
-            l += &format!(" {} {}", h32(a), h32(a + rng.f32_in(0.5, 10.0)));
+            // a quarter of the axes are FLAT (start == end, or -0.0..0.0): the component is fixed, but
+            // it is still drawn (the generator advances), independently and in order
+            if rng.chance(1, 4) {
+                if rng.bool() { l += &format!(" {} {}", h32(a), h32(a)); } else { l += &format!(" {} {}", h32(-0.0), h32(0.0)); }
+            } else {
+                l += &format!(" {} {}", h32(a), h32(a + rng.f32_in(0.5, 10.0)));
+            }
         }
         out.push(l);
         let s = rng.u64().max(1);
         let mut l = format!("pt2 {}", h64(s));
         for _ in 0..2 {
             let a = rng.f32_in(-10.0, 10.0);
-            l += &format!(" {} {}", h32(a), h32(a + rng.f32_in(0.5, 10.0)));
+            if rng.chance(1, 4) {
+                l += &format!(" {} {}", h32(a), h32(a));
+            } else {
+                l += &format!(" {} {}", h32(a), h32(a + rng.f32_in(0.5, 10.0)));
+            }
         }
         out.push(l);
         let a = rng.range(-50, 50);
@@ -272,27 +282,39 @@ pub fn run(t: &[&str]) -> String {
                 _ => panic!("arr n"),
             };
             let vs: Vec<String> = v.iter().map(|x| x.to_string()).collect();
-            format!("{} {}", vs.join(" "), h64(g.0))
+            // the same components drawn one at a time
+            let mut g2 = st(t[1]);
+            let seq: Vec<i32> = (0..n).map(|i| Uniform(p[2 * i]..p[2 * i + 1]).sample(&mut g2)).collect();
+            format!("{} {} seq={}", vs.join(" "), h64(g.0), (seq == v && g2.0 == g.0) as u8)
         }
         "vec3" => {
             let mut g = st(t[1]);
             let p: Vec<f32> = t[2..].iter().map(|s| pf32(s)).collect();
             let d = Uniform(vec3::<f32, ()>(p[0], p[2], p[4])..vec3(p[1], p[3], p[5]));
             let v = d.sample(&mut g);
-            format!("{} {} {} {}", h32(v.x()), h32(v.y()), h32(v.z()), h64(g.0))
+            let mut g2 = st(t[1]);
+            let seq: Vec<u32> = (0..3).map(|i| Uniform(p[2 * i]..p[2 * i + 1]).sample(&mut g2).to_bits()).collect();
+            let same = seq == [v.x().to_bits(), v.y().to_bits(), v.z().to_bits()] && g2.0 == g.0;
+            format!("{} {} {} {} seq={}", h32(v.x()), h32(v.y()), h32(v.z()), h64(g.0), same as u8)
         }
         "pt2" => {
             let mut g = st(t[1]);
             let p: Vec<f32> = t[2..].iter().map(|s| pf32(s)).collect();
             let d = Uniform(pt2::<f32, ()>(p[0], p[2])..pt2(p[1], p[3]));
             let v = d.sample(&mut g);
-            format!("{} {} {}", h32(v.x()), h32(v.y()), h64(g.0))
+            let mut g2 = st(t[1]);
+            let seq: Vec<u32> = (0..2).map(|i| Uniform(p[2 * i]..p[2 * i + 1]).sample(&mut g2).to_bits()).collect();
+            let same = seq == [v.x().to_bits(), v.y().to_bits()] && g2.0 == g.0;
+            format!("{} {} {} seq={}", h32(v.x()), h32(v.y()), h64(g.0), same as u8)
         }
         "pair" => {
             let mut g = st(t[1]);
             let d = (Bernoulli(pf32(t[2])), Uniform(pint(t[3]) as i32..pint(t[4]) as i32));
             let (b, v) = d.sample(&mut g);
-            format!("{} {} {}", b as u8, v, h64(g.0))
+            let mut g2 = st(t[1]);
+            let b2 = Bernoulli(pf32(t[2])).sample(&mut g2);
+            let v2 = Uniform(pint(t[3]) as i32..pint(t[4]) as i32).sample(&mut g2);
+            format!("{} {} {} seq={}", b as u8, v, h64(g.0), (b == b2 && v == v2 && g2.0 == g.0) as u8)
         }
         "disk" => {
             let mut g = st(t[1]);
